@@ -89,6 +89,9 @@ pub struct SrcState {
     /// (call number, length): that many consecutive Interrupted results starting at that read call
     pub storm: Option<(u64, u32)>,
     storm_left: u32,
+    /// what calls after the first error see: 0 the error again (every time), 1 a plain end of input,
+    /// 2 the rest of the data
+    pub after_failure: u8,
 }
 
 pub const FAIL_KINDS: [io::ErrorKind; 19] = [
@@ -139,6 +142,7 @@ impl Src {
             fail_salt: seed,
             storm: None,
             storm_left: 0,
+            after_failure: 0,
         })))
     }
     pub fn from_bytes(data: &[u8], policy: Policy, seed: u64) -> Src {
@@ -152,6 +156,13 @@ impl Src {
             s.end = End::Fail;
         }
         self
+    }
+    /// like failing_at, but the error is returned only once: afterwards the source reports a plain end
+    /// (mode 1) or goes on delivering the rest of the data (mode 2)
+    pub fn failing_once_at(self, k: usize, mode: u8) -> Src {
+        let s = self.failing_at(k);
+        s.0.borrow_mut().after_failure = mode;
+        s
     }
     pub fn truncated_at(self, k: usize) -> Src {
         {
@@ -220,8 +231,22 @@ impl Read for Src {
             }
             return Err(io::Error::new(io::ErrorKind::Interrupted, "injected EINTR (storm)"));
         }
-        let remaining = s.limit - s.log.delivered;
+        let mut remaining = s.limit - s.log.delivered;
+        if remaining == 0 && matches!(s.end, End::Fail) && s.log.err_returned >= 1 && s.after_failure == 2 {
+            // the failure was transient (a reset connection, a timeout): the source goes on delivering
+            s.limit = s.data.len();
+            s.end = End::Eof;
+            remaining = s.limit - s.log.delivered;
+        }
         if remaining == 0 {
+            if matches!(s.end, End::Fail) && s.log.err_returned >= 1 && s.after_failure == 1 {
+                // the failure is not repeated: every later call reports a plain end of input
+                s.log.eof_returned += 1;
+                if s.record_calls {
+                    s.log.call_log.push((buf.len(), 0));
+                }
+                return Ok(0);
+            }
             return match s.end {
                 End::Eof => {
                     s.log.eof_returned += 1;
